@@ -312,10 +312,12 @@ impl Engine for VcCli {
             }
         }
         // ---------------- C20
-        let md_b = [B::Pass, B::FailOutput, B::FailExit, B::Exit { code: 80, expected: false }, B::Detached, B::Timeout];
+        let md_b = [B::Pass, B::FailOutput, B::FailExit, B::Exit { code: 80, expected: false }, B::Detached, B::Timeout, B::Exit { code: 81, expected: false }];
         let cram_b = [B::Pass, B::FailOutput, B::FailExit];
         let pre = Doc::new("pre.md", false, vec![B::Pass]);
         let pre_fail = Doc::new("pre.md", false, vec![B::FailOutput]);
+        let mut pre_skip = Doc::new("pre.md", false, vec![B::Pass, B::Exit { code: 81, expected: false }]);
+        pre_skip.doc_skip_code = Some(81);
         let app = Doc::new("app.md", false, vec![B::Pass, B::FailExit]);
         let tdepth = if quick { 2 } else { 3 };
         // single document, every behaviour sequence, every prepend/append variant
@@ -327,7 +329,11 @@ impl Engine for VcCli {
             if tests.iter().filter(|b| matches!(b, B::Timeout)).count() > 1 {
                 continue;
             }
-            let variants: Vec<u8> = if w.len() == tdepth && !quick { vec![0] } else { vec![0, 1, 2, 3, 4, 5, 6] };
+            let has81 = tests.iter().position(|b| matches!(b, B::Exit { code: 81, .. }));
+            let mut variants: Vec<u8> = if w.len() == tdepth && !quick { vec![0] } else { vec![0, 1, 2, 3, 4, 5, 6, 7, 8] };
+            if has81.is_some() {
+                variants.push(9);
+            }
             for variant in variants {
                 let mut doc = Doc::new("d1/one.md", false, tests.clone());
                 let (mut cp, mut ca, mut aux) = (vec![], vec![], vec![]);
@@ -362,6 +368,18 @@ impl Engine for VcCli {
                         doc.fm_prepend = vec!["../pre.md".into()];
                         aux.push(pre_fail.clone());
                     }
+                    // a prepended document that skips with a skip code of its own (front-matter / command line):
+                    // nothing of the combined document runs after it
+                    7 => {
+                        doc.fm_prepend = vec!["../pre.md".into()];
+                        aux.push(pre_skip.clone());
+                    }
+                    8 => {
+                        cp = vec!["pre.md".to_string()];
+                        aux.push(pre_skip.clone());
+                    }
+                    // the test case that exits with 81 declares 81 as its skip code
+                    9 => doc.inline_skip_code = Some((has81.unwrap(), 81)),
                     _ => {}
                 }
                 v.push(CliCase::Order { docs: vec![doc], aux, cli_prepend: cp, cli_append: ca, by_directory: false });
@@ -442,7 +460,7 @@ impl Engine for VcCli {
     fn bound(&self, tier: Tier) -> String {
         let q = tier == Tier::Quick;
         format!(
-            "C15: every Markdown document of 1..{d} test cases over {{pass, fail-output, fail-exit, exit 80, exit 80 with [80], exit 81, exit 81 with [81]}} x skip code setting {{default, front-matter defaults 81, inline 81}} x second document {{none, passing, failing}}; every Cram document of 1..{d} over the same plus a final plain `exit 80`. C20: every single Markdown document of 1..{d} test cases over {{pass, fail-output, fail-exit, exit 80, detached, timeout}} x 7 prepend/append variants (front-matter, -P/-A, both, failing prepend); every run of {n} documents over 7 document shapes (Markdown and Cram mixed) given as files, as a directory, and with -P; 4 error classes. C18: every run of 1..{n} documents over 8 outcome classes (success, validation failure, timeout, skip, parse error, script exit error, shell not executable, timeout of a shell that ignores SIGTERM - observed after that shell has ended) x {{no flag, --work-directory, --keep-temporary-directories}} x format mixes x same/different file names, plus tampering histories (test 1 overwrites TESTDIR / unsets TMPDIR) and {r} rounds of 4 concurrent scrut processes on one TMPDIR (sampling, not what the property is decided on)",
+            "C15: every Markdown document of 1..{d} test cases over {{pass, fail-output, fail-exit, exit 80, exit 80 with [80], exit 81, exit 81 with [81]}} x skip code setting {{default, front-matter defaults 81, inline 81}} x second document {{none, passing, failing}}; every Cram document of 1..{d} over the same plus a final plain `exit 80`. C20: every single Markdown document of 1..{d} test cases over {{pass, fail-output, fail-exit, exit 80, detached, timeout, exit 81}} x 9 prepend/append variants (front-matter, -P/-A, both, failing prepend, a prepended document that skips with a skip code of its own) + inline skip code 81; every run of {n} documents over 7 document shapes (Markdown and Cram mixed) given as files, as a directory, and with -P; 4 error classes. C18: every run of 1..{n} documents over 8 outcome classes (success, validation failure, timeout, skip, parse error, script exit error, shell not executable, timeout of a shell that ignores SIGTERM - observed after that shell has ended) x {{no flag, --work-directory, --keep-temporary-directories}} x format mixes x same/different file names, plus tampering histories (test 1 overwrites TESTDIR / unsets TMPDIR) and {r} rounds of 4 concurrent scrut processes on one TMPDIR (sampling, not what the property is decided on)",
             d = if q { 2 } else { 3 },
             n = if q { 2 } else { 3 },
             r = if q { 3 } else { 20 }
